@@ -2,5 +2,5 @@ SPECIFICATION MCSpec
 CONSTANTS
   MaxLen = 6
   BitLen = 3
-INVARIANTS MisuseIsError ChildShape AllSegments AllMasks ExchangeExact FlipShape FlipDegenerate OolDegenerate UmadShape UmadDegenerate UmadAcceptsExact Emit
+INVARIANTS MisuseIsError ChildShape AllSegments AllMasks PairsFree ExchangeExact FlipShape FlipDegenerate OolDegenerate UmadShape UmadDegenerate UmadAcceptsExact Emit
 CHECK_DEADLOCK FALSE
